@@ -7,6 +7,7 @@ package main
 
 import (
 	"bufio"
+	"math/bits"
 	"fmt"
 	"io"
 	"os"
@@ -58,10 +59,11 @@ type Solver struct {
 	fbMs     int
 	FbStats  SolverStats
 	quickMs  int
+	mode     string // "z3" (default) or "cvc5" as primary
 }
 
-func NewSolver(bin string, timeoutMs int, transcriptPath string) (*Solver, error) {
-	s := &Solver{bin: bin, timeoutMs: timeoutMs}
+func NewSolver(bin string, timeoutMs int, transcriptPath string, mode string, quickMs int, seed int) (*Solver, error) {
+	s := &Solver{bin: bin, timeoutMs: timeoutMs, mode: mode, quickMs: quickMs, seed: seed, fbBin: "other", fbMs: timeoutMs}
 	if transcriptPath != "" {
 		f, err := os.Create(transcriptPath)
 		if err != nil {
@@ -77,7 +79,15 @@ func NewSolver(bin string, timeoutMs int, transcriptPath string) (*Solver, error
 }
 
 func (s *Solver) start() error {
-	s.cmd = exec.Command(s.bin, "-in")
+	if s.mode == "cvc5" {
+		ms := s.quickMs
+		if ms == 0 {
+			ms = s.timeoutMs
+		}
+		s.cmd = exec.Command("cvc5", "--incremental", "--produce-models", "--solve-bv-as-int=sum", fmt.Sprintf("--tlimit-per=%d", ms))
+	} else {
+		s.cmd = exec.Command(s.bin, "-in")
+	}
 	w, err := s.cmd.StdinPipe()
 	if err != nil {
 		return err
@@ -99,8 +109,11 @@ func (s *Solver) start() error {
 	s.decls = nil
 	s.asserts = [][]string{nil}
 	s.closeFallback()
+	if s.mode == "cvc5" {
+		s.send("(set-logic ALL)")
+	}
 	s.send("(set-option :global-declarations true)")
-	if s.seed != 0 {
+	if s.seed != 0 && s.mode != "cvc5" {
 		s.send(fmt.Sprintf("(set-option :sat.random_seed %d)", s.seed))
 	}
 	return nil
@@ -115,84 +128,80 @@ func (s *Solver) closeFallback() {
 }
 
 // fallbackCheck decides the current context (all assertions on the stack,
-// extras included) with the second solver: cvc5 translating bit-vector
-// arithmetic to integer arithmetic modulo 2^k, which decides wrap-around
-// length arithmetic that bit-blasting does not finish.
+// extras included) with one-shot solver runs on the flattened query: first
+// cvc5 translating bit-vector arithmetic to integer arithmetic modulo 2^k
+// (decides wrap-around length arithmetic that bit-blasting does not finish;
+// far more reliable non-incrementally than inside a long incremental
+// session), then z3's default strategy.
 func (s *Solver) fallbackCheck(vars []*Term) (SatResult, Model) {
 	start := time.Now()
 	defer func() {
 		s.FbStats.Queries++
 		s.FbStats.Time += time.Since(start)
 	}()
-	if s.fb == nil {
-		ms := s.fbMs
-		if ms == 0 {
-			ms = 60000
-		}
-		cmd := exec.Command("cvc5", "--incremental", "--produce-models", "--solve-bv-as-int=sum", fmt.Sprintf("--tlimit-per=%d", ms))
-		w, err := cmd.StdinPipe()
-		if err != nil {
-			return Unknown, nil
-		}
-		r, err := cmd.StdoutPipe()
-		if err != nil {
-			return Unknown, nil
-		}
-		cmd.Stderr = nil
-		if err := cmd.Start(); err != nil {
-			s.lastErr = "cannot start cvc5: " + err.Error()
-			return Unknown, nil
-		}
-		s.fb, s.fbIn, s.fbOut = cmd, bufio.NewWriterSize(w, 1<<16), bufio.NewReaderSize(r, 1<<16)
-		s.fbDecls = 0
-		s.fbIn.WriteString("(set-logic ALL)\n(set-option :global-declarations true)\n")
+	ms := s.fbMs
+	if ms == 0 {
+		ms = 60000
 	}
-	for ; s.fbDecls < len(s.decls); s.fbDecls++ {
-		s.fbIn.WriteString(s.decls[s.fbDecls])
-		s.fbIn.WriteByte('\n')
+	var q strings.Builder
+	for _, d := range s.decls {
+		q.WriteString(d)
+		q.WriteByte('\n')
 	}
-	s.fbIn.WriteString("(push)\n")
 	for _, lvl := range s.asserts {
 		for _, a := range lvl {
-			s.fbIn.WriteString(a)
-			s.fbIn.WriteByte('\n')
+			q.WriteString(a)
+			q.WriteByte('\n')
 		}
 	}
-	s.fbIn.WriteString("(check-sat)\n")
-	s.fbIn.Flush()
-	ans, err := readSexpFrom(s.fbOut)
+	var names []string
+	for _, v := range vars {
+		names = append(names, v.ref())
+	}
+	getv := ""
+	if len(names) > 0 {
+		getv = "(get-value (" + strings.Join(names, " ") + "))\n"
+	}
+	type attempt struct {
+		argv   []string
+		header string
+		check  string
+	}
+	attempts := []attempt{
+		{[]string{"cvc5", "--produce-models", "--solve-bv-as-int=sum", fmt.Sprintf("--tlimit=%d", ms)}, "(set-logic ALL)\n", "(check-sat)\n"},
+		{[]string{"z3", "-in", fmt.Sprintf("-T:%d", (ms+999)/1000)}, "", "(check-sat)\n"},
+	}
 	res := Unknown
-	switch {
-	case err != nil:
-		s.lastErr = "cvc5: " + err.Error()
-		s.closeFallback()
-		return Unknown, nil
-	case ans == "sat":
-		res = Sat
-	case ans == "unsat":
-		res = Unsat
-	default:
-		s.lastErr = "cvc5: " + ans
-	}
 	var m Model
-	if res == Sat && len(vars) > 0 {
-		var names []string
-		for _, v := range vars {
-			names = append(names, v.ref())
+	for _, at := range attempts {
+		cmd := exec.Command(at.argv[0], at.argv[1:]...)
+		cmd.Stdin = strings.NewReader(at.header + q.String() + at.check + getv)
+		out, _ := cmd.Output()
+		txt := strings.TrimSpace(string(out))
+		first := txt
+		rest := ""
+		if i := strings.IndexByte(txt, '\n'); i >= 0 {
+			first, rest = strings.TrimSpace(txt[:i]), strings.TrimSpace(txt[i+1:])
 		}
-		s.fbIn.WriteString("(get-value (" + strings.Join(names, " ") + "))\n")
-		s.fbIn.Flush()
-		txt, err := readSexpFrom(s.fbOut)
-		if err != nil || strings.Contains(txt, "(error") {
-			res = Unknown
-			s.lastErr = "cvc5 get-value: " + txt
-		} else if m = parseModel(txt, vars); m == nil {
-			res = Unknown
-			s.lastErr = "cvc5: unparsable model: " + txt
+		switch first {
+		case "unsat":
+			res = Unsat
+		case "sat":
+			res = Sat
+			if len(vars) > 0 {
+				if strings.Contains(rest, "(error") {
+					res = Unknown
+				} else if m = parseModel(rest, vars); m == nil {
+					res = Unknown
+				}
+			}
+		default:
+			s.lastErr = at.argv[0] + ": " + firstLineOf(txt)
+		}
+		if res != Unknown {
+			break
 		}
 	}
-	s.fbIn.WriteString("(pop)\n")
-	s.fbIn.Flush()
 	switch res {
 	case Sat:
 		s.FbStats.Sat++
@@ -202,6 +211,13 @@ func (s *Solver) fallbackCheck(vars []*Term) (SatResult, Model) {
 		s.FbStats.Unknown++
 	}
 	return res, m
+}
+
+func firstLineOf(s string) string {
+	if i := strings.IndexByte(s, '\n'); i >= 0 {
+		return s[:i]
+	}
+	return s
 }
 
 func (s *Solver) Close() {
@@ -349,10 +365,25 @@ func (s *Solver) declareVar(t *Term) {
 		s.sendDecl(fmt.Sprintf("(declare-const %s %s)", t.Name, sortOf(t.W)))
 		return
 	}
+	// the raw variable is as narrow as the range allows, clamped into the
+	// range if it is not a full power-of-two range, then zero-extended
 	raw := t.Name + "_raw"
-	s.sendDecl(fmt.Sprintf("(declare-const %s %s)", raw, sortOf(t.W)))
-	s.sendDecl(fmt.Sprintf("(define-fun %s () %s (ite (and (bvule %s %s) (bvule %s %s)) %s %s))", t.Name, sortOf(t.W),
-		bvLit(t.W, t.lo), raw, raw, bvLit(t.W, t.hi), raw, bvLit(t.W, t.lo)))
+	nw := uint8(bits.Len64(t.hi))
+	if nw == 0 {
+		nw = 1
+	}
+	if nw > t.W {
+		nw = t.W
+	}
+	s.sendDecl(fmt.Sprintf("(declare-const %s %s)", raw, sortOf(nw)))
+	inner := raw
+	if t.lo != 0 || t.hi != mask(nw) {
+		inner = fmt.Sprintf("(ite (and (bvule %s %s) (bvule %s %s)) %s %s)", bvLit(nw, t.lo), raw, raw, bvLit(nw, t.hi), raw, bvLit(nw, t.lo))
+	}
+	if nw < t.W {
+		inner = fmt.Sprintf("((_ zero_extend %d) %s)", t.W-nw, inner)
+	}
+	s.sendDecl(fmt.Sprintf("(define-fun %s () %s %s)", t.Name, sortOf(t.W), inner))
 }
 
 func (s *Solver) Push() {
@@ -400,7 +431,11 @@ func (s *Solver) Check(extra []*Term, vars []*Term) (SatResult, Model) {
 	if s.quickMs > 0 && s.quickMs < qms {
 		qms = s.quickMs
 	}
-	s.send(fmt.Sprintf("(check-sat-using (try-for qfbv %d))", qms))
+	if s.mode == "cvc5" {
+		s.send("(check-sat)")
+	} else {
+		s.send(fmt.Sprintf("(check-sat-using (try-for qfbv %d))", qms))
+	}
 	ans, err := s.readSexp()
 	res := Unknown
 	switch {
